@@ -281,6 +281,14 @@ def gen_chain(g, n_target=None, force_worm=None, self_locking=None,
              'b': None, 'E': None}
         i = add(e)
         decls.append({'op': 'joint', 'm': prev, 's': i})
+    if not allow_reroute and g.chance(0.25):
+        # the relations of one chain can be declared in any order
+        # (downstream first, or at random): an idler keeps the role of the
+        # mating declared last
+        if g.chance(0.5):
+            decls.reverse()
+        else:
+            r.shuffle(decls)
     return els, decls
 
 
@@ -456,6 +464,23 @@ def convert_live_op(g, chain):
             'unit': r.choice(si.units_of(LIVE_ATTRS[attr]))}
 
 
+def set_state_op(g, model, chain):
+    """The user re-references the output between two runs: a new position
+    and/or speed assigned to the last element (F_SETSTATE)."""
+    r = g.rng
+    k, R, E, J = rm.rate_constant(model, chain)
+    w_out = model.e[chain[0]]['w0'] / R
+    op = {'op': 'set_state', 'position': None, 'speed': None}
+    c = r.random()
+    if c < 0.75:
+        op['position'] = g.q('AngularPosition',
+                             r.choice([0.0, r.uniform(-10, 10)]))
+    if c > 0.5:
+        op['speed'] = g.q('AngularSpeed',
+                          r.choice([0.0, r.uniform(-1, 1) * w_out]))
+    return op
+
+
 def gen_dyn(g):
     """C01-C03 (and the default for others): run / continue / reset."""
     r = g.rng
@@ -500,6 +525,8 @@ def gen_dyn(g):
             d = dict(r.choice(gears))
             d['eff'] = round(r.uniform(0.3, 1.0), 3)
             sched.append({'op': 'redeclare', 'decl': d})
+        if g.chance(0.12) and (c < 0.6 or c >= 0.8):
+            sched.append(set_state_op(g, model, chain))
         if c < 0.6:
             sched.append(gen_run(g, k))
         elif c < 0.8:
@@ -670,7 +697,16 @@ def gen(seed, profile, cfg=None):
         condition_load(scn)
     scn['seed'] = seed
     scn['profile'] = profile
+    if profile in NP_PROFILES and \
+            random.Random(seed * 2654435761 % 2**32).random() < 0.06:
+        # the caller computes its numbers with numpy: every float literal of
+        # the scenario is handed over as numpy.float64 (a float subclass)
+        scn['np_inputs'] = True
     return scn
+
+
+NP_PROFILES = ('dyn', 'lock', 'sched', 'stop', 'tv', 'query', 'ctrl',
+               'motor', 'stress', 'grid', 'decl')
 
 
 def gen_lock(g):
@@ -703,6 +739,8 @@ def gen_lock(g):
         if g.chance(0.15) and sched[-1]['op'] == 'run':
             sched.append(convert_live_op(g, chain))
         if c < 0.7:
+            if g.chance(0.15):
+                sched.append(set_state_op(g, model, chain))
             sched.append(gen_run(g, k, kdt=g.logu(0.02, 1.0)))
         else:
             sched.append({'op': 'reset', 'reapply': g.chance(0.7)})
@@ -1909,11 +1947,17 @@ def gen_badparams(g):
     ]
     alpha = r.choice([14.5, 20.0, 25.0, 30.0])
     hmax = rm.WORM_TABLE[alpha][0]
+    # the tabulated pressure angle in any angle unit (exact literals where
+    # the unit allows it)
+    au = r.choice(si.units_of('Angle'))
+    exact = {'deg': 1, 'arcmin': 60, 'arcsec': 3600}
+    aq = [alpha * exact[au], au] if au in exact else \
+        g.q('Angle', alpha * pi / 180, au)
     cases += [
         ('worm_helix>limit', r.choice(['WormGear', 'WormWheel']),
-         {'alpha': [alpha, 'deg'],
+         {'alpha': aq,
           'beta': q('Angle', (hmax + r.choice([0.5, 2.0, 20.0])) * pi / 180)}),
-        ('worm_starts<1', 'WormGear', {'alpha': [alpha, 'deg'], 'starts': r.choice([0, -1]),
+        ('worm_starts<1', 'WormGear', {'alpha': list(aq), 'starts': r.choice([0, -1]),
                                        'beta': q('Angle', 5 * pi / 180)}),
     ]
     for what, comp, params in r.sample(cases, r.randint(2, 5)):
